@@ -87,6 +87,84 @@ func ruleRelocFresh(r *Report) {
 	r.Min(rule, 1)
 }
 
+// boundUpdateIndex resolves the functions bound to primaryGC.updateIndex at
+// the relocation call sites (through the call graph and bound-method wrappers).
+func boundUpdateIndex(r *Report, rule string) (sites []ssa.CallInstruction, targets []*ssa.Function) {
+	fn := r.need(rule, "M", "(*primaryGC).reapRecords")
+	if fn == nil {
+		return nil, nil
+	}
+	sites = callSites(fn, "field:primaryGC.updateIndex")
+	seen := map[*ssa.Function]bool{}
+	for _, s := range sites {
+		callees := r.E.Callees(s)
+		if len(callees) == 0 {
+			r.Undecided(rule, "callee of primaryGC.updateIndex not resolved by the call graph")
+			continue
+		}
+		for _, c := range callees {
+			ts := []*ssa.Function{c}
+			if c.Synthetic != "" {
+				ts = nil
+				for _, in := range allCalls(c) {
+					if f := in.Common().StaticCallee(); f != nil && f.Blocks != nil {
+						ts = append(ts, f)
+					}
+				}
+			}
+			for _, t := range ts {
+				if !seen[t] {
+					seen[t] = true
+					targets = append(targets, t)
+				}
+			}
+		}
+	}
+	return sites, targets
+}
+
+// R-RELOC-BINDING: the function the store binds to the collector's
+// updateIndex callback reports success only when it has re-pointed the key:
+// every nil-error return lies behind a store into the index's write pool.
+// (Index.Put has the same signature but silently does nothing for a key that
+// is already present; the collector would then free the old copy while the
+// index still names it.)
+func ruleRelocBinding(r *Report) {
+	const rule = "reloc-binding"
+	sites, targets := boundUpdateIndex(r, rule)
+	if len(sites) == 0 {
+		if r.E.Func("M", "(*primaryGC).reapRecords") != nil {
+			r.Bad(rule, "(*primaryGC).reapRecords/updateIndex", token.NoPos, "relocation never re-points the index (no call through primaryGC.updateIndex)")
+		}
+		return
+	}
+	for _, t := range targets {
+		r.fn(t)
+		stores := map[ssa.Instruction]bool{}
+		for _, f := range famFuncs(t) {
+			eachInstr(f, func(in ssa.Instruction) {
+				if mu, ok := in.(*ssa.MapUpdate); ok && fieldOfLoad(mu.Map) == "Index.nextPool" {
+					stores[in] = true
+				}
+			})
+		}
+		succ, _ := classifyReturns(t)
+		if len(succ) == 0 {
+			r.Bad(rule, "updateIndex="+shortFunc(t)+"/success-means-repointed", t.Pos(), "the function bound to updateIndex has no success return")
+			continue
+		}
+		for _, ret := range succ {
+			ok, path := precededBy(t, ret, stores, nil)
+			if ok && len(stores) > 0 {
+				r.Ok(rule, "updateIndex="+shortFunc(t)+"/success-means-repointed", ret.Pos(), "success is reported only after the bucket's new record list was stored in the write pool")
+			} else {
+				r.BadPath(rule, "updateIndex="+shortFunc(t)+"/success-means-repointed", ret.Pos(), "the function bound to the collector's updateIndex callback can report success without having stored anything (e.g. Index.Put is a silent no-op for a key that is already present): the collector then frees the old copy while the index still names it — after the next cycle the key reads absent or as an error", path)
+			}
+		}
+	}
+	r.Min(rule, 1)
+}
+
 func init() {
 	register("C06", func(r *Report) {
 		la, rt := runLockAnalysis(r, "race")
@@ -97,9 +175,13 @@ func init() {
 		ruleGCMarkGuard(r)
 		ruleGCNotCurrent(r)
 		ruleRelocFresh(r)
+		ruleRelocBinding(r)
 		ruleToGC(r)
 		ruleGCFlushFirst(r)
 		ruleRetain(r)
+		// a collector that is wrong sequentially also disturbs concurrent callers;
+		// files the collector removes/truncates may be lent out by the file cache
+		r.support(grpGC, grpCache, []string{"atomic-rmw", "published-bytes-immutable"})
 	},
 		"Decides structural necessary conditions of 'concurrent GC never disturbs callers', not the behaviour over all interleavings: no unprotected conflicting access pair between the public calls, the flusher and both collectors (lockset analysis incl. the GC roots); lock order acyclic; index GC marks only on the busy()==false edge, busy under bucketLk; GC only touches files whose number is dominated by a != current test against a snapshot taken under flushLock (and, for the free-file scan, taken before the bucket scan); the freelist hand-over runs in one exclusive flushLock section; relocation hands stable buffers to the primary; relocation may re-point a key only if the index still names the moved record (compare-and-swap shape) — violated on the current tree and reported as known finding KF-2. Not covered: the reader-holds-position window (Index.Get dereferences a bucket position after releasing the lock), timing.")
 }
@@ -596,6 +678,8 @@ func init() {
 		ruleLayout(r)
 		ruleSplice(r)
 		rulePosCodec(r)
+		r.support([]string{"primary-mark", "gc-mark-guard", "gc-not-current", "retain", "reloc-binding", "bucket-after-write", "tail-recovery",
+			"meta-atomic", "rollover-siblings", "rollover-switch", "strip-whole-bytes", "index-names-new-location", "freelist-consume", "togc", "upgrade-order", "chunk-accounting"})
 	},
 		"Decides structural necessary conditions of the fsck invariant, not the invariant over reachable disk states: no location is put on the freelist unless the index stopped naming it on that path; FirstFile advances only past a file shown empty and only when it is the header's first file, and the file is unlinked only after the header write; all scanners/readers honour the deleted bit; a merged free span grows by exactly the bytes the scanner advances over (log stays framed); the rescan applies every non-deleted record; writer, rescan and GC agree on the bucket position convention; writer and reader tables of the index entry, index log record, freelist entry and primary record agree (affine). Not covered: sortedness/prefix-freeness of entries, that entries point at records carrying the right key, division-based absolute-position arithmetic.")
 }
